@@ -82,7 +82,11 @@ def _target_elem(root, target):
     if target == "response":
         return root
     if target == "assertion":
-        return root.find(wire.q(wire.SAML, "Assertion"))
+        a = root.find(wire.q(wire.SAML, "Assertion"))
+        if a is None:
+            # on its way to encryption the assertion already sits inside the EncryptedAssertion wrapper
+            a = root.find(wire.q(wire.SAML, "EncryptedAssertion") + "/" + wire.q(wire.SAML, "Assertion"))
+        return a
     return None
 
 
